@@ -27,6 +27,9 @@ FLOORS = {"quick": {"deliveries_checked": 30000, "held_back_by_predecessor": 300
           "thorough": {"deliveries_checked": 600000, "held_back_by_predecessor": 60000,
                        "arrived_during_propagation": 100000, "loss_all_cases": 400, "loss_none_cases": 4000,
                        "loss_stat_packets": 800000, "cable_cases": 2000, "exact_cases": 6000}}
+# floors for the situations added with the later rounds of seeded changes (evidence that they were really exercised)
+FLOORS["quick"].update({'receivers_returning_pending_events': 20, 'same_object_reentries': 150})
+FLOORS["thorough"].update({'receivers_returning_pending_events': 100, 'same_object_reentries': 750})
 
 
 def plan(tier):
